@@ -368,3 +368,31 @@ func (an *Analysis) StatusOfCall(c *ssa.CallCommon) (string, string, bool) {
 	}
 	return vals[0], vals[1], got[0]
 }
+
+// RetVal resolves operand i of a return: with defers present the compiler spills results into cells
+// (`*t0 = v; rundefers; t = *t0; return t`); the value stored last in the return's block is the operand.
+func (an *Analysis) RetVal(r *ssa.Return, i int) ssa.Value {
+	v := r.Results[i]
+	u, ok := v.(*ssa.UnOp)
+	if !ok || u.Op != token.MUL {
+		return v
+	}
+	al, ok := u.X.(*ssa.Alloc)
+	if !ok {
+		return v
+	}
+	blk := r.Block()
+	var last ssa.Value
+	for _, in := range blk.Instrs {
+		if in == ssa.Instruction(u) {
+			break
+		}
+		if st, ok := in.(*ssa.Store); ok && st.Addr == al {
+			last = st.Val
+		}
+	}
+	if last != nil {
+		return last
+	}
+	return v
+}
